@@ -22,7 +22,7 @@ from ..fstree import materialise, read_tree
 ID = "C19"
 MODULE = "mc.checks.c19"
 IDS = ["MIT", "MIT+", "GPL-2.0+", "Classpath-exception-2.0", "LicenseRef-x.1", "Nope"]
-FAILS = ["http404", "http500", "urlerror", "status204", "reset", "notutf8"]
+FAILS = ["http404", "http500", "urlerror", "status204", "reset", "notutf8", "disconnected", "incomplete", "timeout"]
 SENTINEL = "pre-existing sentinel content\n"
 H = "# SPDX-FileCopyrightText: 2020 Jane\n"
 
@@ -37,7 +37,8 @@ def outcome_fn(assign):
         if ident == "Nope":
             kind = "http404" if kind == "ok" else kind
         return {"ok": ("ok", f"text of {ident}\n".encode()), "http404": ("http", 404), "http500": ("http", 500), "urlerror": ("urlerror",),
-                "status204": ("status", 204), "reset": ("reset",), "notutf8": ("notutf8",)}[kind]
+                "status204": ("status", 204), "reset": ("reset",), "notutf8": ("notutf8",), "disconnected": ("disconnected",), "incomplete": ("incomplete",),
+                "timeout": ("timeout",)}[kind]
     return f
 
 
@@ -139,7 +140,9 @@ def ev_req(c) -> R:
             fail = True
         else:
             expect_new[p] = f"text of {t}\n".encode()
-    aborted = any(v in ("reset", "notutf8") for v in c["assign"].values()) and c["state"] != "target-present"
+    aborted = False  # a transfer that fails in whatever way is reported; the other identifiers of the batch are still supplied
+    if out.exc is not None:
+        r.violation(f"crash|{'+'.join(sorted(set(c['assign'].values()))) or 'ok'}|{out.exc}", f"download {c['req']} with network {c['assign']}: unhandled {out.exc_repr}")
     label = f"download {c['req']} (LICENSES {c['state']}, network {c['assign'] or 'ok'})"
     sig = f"req|{c['state']}|{'+'.join(sorted(set(c['assign'].values()))) or 'ok'}"
     judge(r, label, sig, root, before, after, out, urls, expect_new, fail,
